@@ -726,6 +726,7 @@ package util
 //@   requires node != nil && str(key) == NodeHB(node, heapof(OriginTracker.Origin))        #stored-under-its-hash
 //@   assigns ghost(DBPut)
 //@   ensures forall d Ref :: d != ref(self) ==> DBPut[d] == old(DBPut[d])
+//@   ensures err == nil ==> DBPut[ref(self)] == old(DBPut[ref(self)]) + 1                   #a-put-is-counted
 //@ func (NodeDB).DeleteNode returns (err)
 //@   assigns ghost(DBDel)
 //@   ensures forall d Ref :: d != ref(self) ==> DBDel[d] == old(DBDel[d])
@@ -765,6 +766,14 @@ package util
 //@ func (Node).GetHashBytes returns (b)
 //@   assigns nothing
 //@   ensures str(b) == NodeHB(self, heapof(OriginTracker.Origin))
+// The stored copy of an extension owns its path (the path of a new extension is a slice of the path
+// the caller handed to Insert; the caller may reuse that buffer afterwards).
+//@ func (*ExtensionNode).CloneNode(en) returns (c)
+//@   props C14
+//@   mode wrap
+//@   requires en.OriginTrackerNode != nil
+//@   ensures c is *ExtensionNode && c.(*ExtensionNode) != nil && fresh(c.(*ExtensionNode)) && fresh(c.(*ExtensionNode).Path)                                   #owns-its-path
+//@   ensures len(c.(*ExtensionNode).Path) == len(en.Path) && (forall i :: 0 <= i && i < len(en.Path) ==> c.(*ExtensionNode).Path[i] == en.Path[i])           #same-path-content
 //@ func (Node).CloneNode returns (c)
 //@   assigns nothing
 //@   ensures c != nil && NodeHB(c, heapof(OriginTracker.Origin)) == NodeHB(self, heapof(OriginTracker.Origin)) && NodeHash(c, heapof(OriginTracker.Origin)) == NodeHash(self, heapof(OriginTracker.Origin))
@@ -887,6 +896,9 @@ package util
 //@   requires mpt != nil && node != nil && Canon(node) && PathsWF(node) && CollectorWF(mpt) && str(key) == NodeHB(node, heapof(OriginTracker.Origin))
 //@   ensures err == nil ==> NodeHB(node, heapof(OriginTracker.Origin)) == str(key)                                      #donor-node-keeps-its-key
 //@   ensures heapof(OriginTracker.Origin) == old(heapof(OriginTracker.Origin)) && heapof(OriginTracker.Version) == old(heapof(OriginTracker.Version))      #donor-node-is-not-modified
+// C17 (repair): every donor node is handed to the trie's store and recorded as a change, whatever its version
+//@   ensures err == nil ==> DBPut[ref(mpt.db)] == old(DBPut[ref(mpt.db)]) + 1                                           #donor-node-is-handed-to-the-store
+//@   ensures err == nil ==> NodeHash(node, heapof(OriginTracker.Origin)) in CCof(mpt).Changes                           #donor-node-is-recorded
 
 // ================= C14: stores keep a node under the key it is handed with, and that key is the node's hash =================
 //
